@@ -180,6 +180,8 @@ class PEval:
                 continue
             if k == "ReturnStmt":
                 return ("return", self.expr(st["c"][0], env, fn, depth) if st.get("c") else None)
+            if k == "CXXThrowExpr" or (k == "ExprWithCleanups" and st.get("c") and (strip(st["c"][0]) or {}).get("k") == "CXXThrowExpr"):
+                return ("throw",)
             if k == "BreakStmt":
                 return ("break",)
             if k == "ContinueStmt":
